@@ -273,6 +273,35 @@ class World:
                             assert doc['SECoP'] == 'node' and doc['port'] in ports and len(msg) <= MAXLEN
                         except Exception:
                             r.violation('C19/responder/malformed-answer', repr(msg[:80]), case)
+                # whether a request is answered depends on the datagram, not on who sent it: a client that sends from the
+                # discovery port itself (it listens there for announcements: SO_REUSEPORT on another local address)
+                if th.is_alive():
+                    c = socket.socket(socket.AF_INET, socket.SOCK_DGRAM)
+                    try:
+                        c.setsockopt(socket.SOL_SOCKET, socket.SO_REUSEPORT, 1)
+                        c.bind(('127.0.0.2', self.port))
+                    except OSError:
+                        r.count('discovery_port_sender_unavailable')
+                        c.close()
+                        c = None
+                    if c is not None:
+                        try:
+                            c.settimeout(2.0)
+                            c.sendto(b'{"SECoP": "discover"}', ('127.0.0.1', self.port))
+                            got = 0
+                            try:
+                                while got < len(ports):
+                                    c.recvfrom(2048)
+                                    got += 1
+                                    c.settimeout(0.2)
+                            except socket.timeout:
+                                pass
+                            r.count('requests_from_the_discovery_port')
+                            if got != len(ports):
+                                r.violation('C19/responder/request-not-answered/sent-from-the-discovery-port', f'{got} answers for {len(ports)} TCP ports to a request '
+                                            f'sent from 127.0.0.2:{self.port}', {'sub': 'responder', 'history': history[-3:], 'ifaces': ifaces})
+                        finally:
+                            c.close()
                 if r.want_sample():
                     r.sample({'datagram_sequence': history[:8], 'tcp_ports': ports})
             finally:
